@@ -2,25 +2,28 @@ import Mpd.Conn
 import Mpd.Command
 /-!
 # Model of the client run loop (`mpd_client/src/client/connection.rs`) and of the caller side
-(`Client::do_send`, `raw_command`, `raw_command_list`, `do_connect` in `client/mod.rs`)
+(`Client::do_send`, `raw_command_list`, `do_connect` in `client/mod.rs`)
 
-The loop is a deterministic step function of (state, action). Everything the tokio runtime
+The task is a deterministic step function of (state, action). Everything the tokio runtime
 decides is an *input*: which bytes have arrived (`deliver`), who enqueued what (`enqueue`), the
 clock (`advance`), cancellation, handle drops, persistent faults, and — where both `select!`
-branches are ready in the same poll — which branch is polled first (`recvFirst`).
+branches may be ready in the same poll — which one is polled first (`recvFirst`).
 
 One program point per `await` at which the task can be suspended:
 
-* `connecting`   – `AsyncConnection::connect` reading the greeting
-* `pwWait σ`     – `do_connect` waiting for the reply to `password` (live `receive` future, builder σ)
-* `spawned`      – connected; the spawned `run_loop` has not run yet (it writes the first `idle`)
-* `idling σ`     – `select!` over the live `receive()` future (builder σ) and `commands.recv()`
+* `connecting`     – `AsyncConnection::connect` reading the greeting
+* `pwWait σ`       – `do_connect` waiting for the reply to `password` (live `receive` future, builder σ)
+* `spawned`        – connected; the spawned `run_loop` has not run yet (it writes the first `idle`)
+* `idling σ`       – `select!` over the live `receive()` future (builder σ) and `commands.recv()`
 * `cancelWait r σ` – `handle_command`: `noidle` written, waiting for its reply
-* `waiting r σ`  – request written, waiting for its reply
-* `waitNext d`   – `timeout(100 ms, commands.recv())` with deadline `d`
-* `exited`       – the loop returned; `State` dropped (queue, event sender, transport)
+* `waiting r σ`    – request written, waiting for its reply
+* `waitNext d`     – `timeout(100 ms, commands.recv())` with deadline `d`
+* `exited`         – the loop returned; `State` dropped (queue, event sender, transport)
+* `failed`         – connecting failed, nothing was spawned
 
-Writes are atomic (no back-pressure); a persistent write fault makes every later write fail.
+`fresh` = the live `receive()` future has not been polled yet (a new future parses what is already
+in `recv_buf` before it reads). Writes are atomic (no back-pressure); a persistent write fault
+makes every later write fail. Faults are final: after a read fault the undelivered bytes are gone.
 -/
 namespace Mpd.Loop
 open Mpd Mpd.Parser Mpd.Builder Mpd.Conn
@@ -59,6 +62,7 @@ inductive Obs where
   | eventsEnd                                  -- event sender dropped
   | transportDropped
   | connected (o : ConnectOutcome)
+  | lost (names : List Bytes)                  -- GHOST: `changed` lines inside a dropped receive future (K3)
 deriving Repr, DecidableEq
 
 inductive Pc where
@@ -70,12 +74,14 @@ inductive Pc where
   | waiting (r : Req) (σ : BState)
   | waitNext (deadline : Nat)
   | exited
-  | failed                                      -- connect failed: nothing was spawned
+  | failed
 deriving Repr, DecidableEq
 
 structure St where
   pc : Pc := .connecting
-  password : Option Bytes := none    -- rendered `password <pw>` command, if any
+  fresh : Bool := true
+  password : Option Bytes := none    -- the rendered `password <pw>\n` request, if any
+  version : Bytes := []
   buf : Bytes := []                  -- `recv_buf` of the connection
   avail : Bytes := []                -- delivered by the peer, not yet read
   eof : Bool := false
@@ -102,7 +108,7 @@ def write (s : St) (b : Bytes) : St × Option Nat :=
 /-- the loop returns: `State` is dropped — queued responders, the event sender, the transport -/
 def exitLoop (s : St) : St :=
   let s := s.queue.foldl (fun s r => emit s (.resolved r.id .closed)) s
-  let s := { s with queue := [], pc := .exited }
+  let s := { s with queue := [], pc := .exited, fresh := false }
   emit (emit s .eventsEnd) .transportDropped
 
 /-- `Response::into_single_frame`; `none` = the `unwrap` would panic (no frame, no error) -/
@@ -120,140 +126,151 @@ def changedValues (f : AFrame) : List Bytes :=
 def emitEvents (s : St) (f : AFrame) : St :=
   (changedValues f).foldl (fun s n => emit s (.event n)) s
 
-/-- one poll of a live `receive()` future: what it returns, if it is ready -/
+/-- the frame under construction inside a builder (what is lost when its future is dropped) -/
+def curOf : BState → AFrame
+  | .initial => {}
+  | .inProgress c => c
+  | .listInProgress c _ => c
+
+/-- ghost: record the `changed` lines that die with a dropped receive future -/
+def dropFuture (s : St) (σ : BState) : St :=
+  let names := changedValues (curOf σ)
+  if names.isEmpty then s else emit s (.lost names)
+
+/-- one poll of a live `receive()` future -/
 inductive RecvPoll where
   | pending (σ : BState)
   | ready (it : Item)
 
-/-- poll `AsyncConnection::receive`: consume everything available, then look at EOF / error -/
+/-- poll `AsyncConnection::receive`: parse what is buffered; if that is not enough read everything
+available and parse again; then look at EOF / the read fault -/
 def pollRecv (s : St) (σ : BState) : St × RecvPoll :=
-  -- first the bytes already in recv_buf, then whatever the transport has
-  let data := s.buf ++ s.avail
-  match s.rerr, s.avail.isEmpty with
-  | some k, true =>
-    -- a read is attempted only if parsing `buf` alone was not enough
-    match feed σ s.buf with
-    | (_, rest, .done r) => ({ s with buf := rest }, .ready (.resp r))
-    | (_, rest, .invalid) => ({ s with buf := rest }, .ready .invalid)
-    | (_, rest, .panic) => ({ s with buf := rest }, .ready .panic)
-    | (_, rest, .pending) => ({ s with buf := rest }, .ready (.io k))
-  | _, _ =>
-    match feed σ data with
-    | (_, rest, .done r) => ({ s with buf := rest, avail := [] }, .ready (.resp r))
-    | (_, rest, .invalid) => ({ s with buf := rest, avail := [] }, .ready .invalid)
-    | (_, rest, .panic) => ({ s with buf := rest, avail := [] }, .ready .panic)
-    | (σ', rest, .pending) =>
-      let s := { s with buf := rest, avail := [] }
-      match s.rerr with
-      | some k => (s, .ready (.io k))
-      | none => if s.eof then (s, .ready (eofItem σ' rest)) else (s, .pending σ')
+  match feed σ s.buf with
+  | (_, rest, .done r) => ({ s with buf := rest }, .ready (.resp r))
+  | (_, rest, .invalid) => ({ s with buf := rest }, .ready .invalid)
+  | (_, rest, .panic) => ({ s with buf := rest }, .ready .panic)
+  | (σ1, rest1, .pending) =>
+    match s.rerr with
+    | some k => ({ s with buf := rest1 }, .ready (.io k))
+    | none =>
+      if s.avail.isEmpty then
+        ({ s with buf := rest1 }, if s.eof then .ready (eofItem σ1 rest1) else .pending σ1)
+      else
+        match feed σ1 (rest1 ++ s.avail) with
+        | (_, rest, .done r) => ({ s with buf := rest, avail := [] }, .ready (.resp r))
+        | (_, rest, .invalid) => ({ s with buf := rest, avail := [] }, .ready .invalid)
+        | (_, rest, .panic) => ({ s with buf := rest, avail := [] }, .ready .panic)
+        | (σ2, rest2, .pending) =>
+          ({ s with buf := rest2, avail := [] }, if s.eof then .ready (eofItem σ2 rest2) else .pending σ2)
 
 def itemErr : Item → ProtoErr
-  | .invalid => .invalid
   | .unexpectedEof => .unexpectedEof
   | .io k => .io k
   | _ => .invalid
 
-/-- `timeout(100 ms, commands.recv())` right after a reply was handled, and again whenever the
-task is woken in `waitNext`: next request, closed queue, deadline, or keep waiting -/
+/-- can polling the live receive future make progress? -/
+def recvPollable (s : St) : Bool := s.fresh || !s.avail.isEmpty || s.eof || s.rerr.isSome
+
+/-- `timeout(100 ms, commands.recv())`: next request, closed queue, deadline, or keep waiting -/
 def afterReply (s : St) (deadline : Nat) : St :=
   match s.queue with
   | r :: q =>
     let s := { s with queue := q }
     match write s r.bytes with
-    | (s, none) => { s with pc := .waiting r .initial }
+    | (s, none) => { s with pc := .waiting r .initial, fresh := true }
     | (s, some k) => exitLoop (emit s (.resolved r.id (.protocol (.io k))))
   | [] =>
     if s.senders = 0 then exitLoop s
     else if s.now ≥ deadline then
       match write s IDLE with
-      | (s, none) => { s with pc := .idling .initial }
+      | (s, none) => { s with pc := .idling .initial, fresh := true }
       | (s, some k) => exitLoop (emit s (.closing (some (.io k))))
-    else { s with pc := .waitNext deadline }
+    else { s with pc := .waitNext deadline, fresh := false }
 
-/-- `handle_command`: the `noidle` part -/
+/-- `handle_command`, up to the point where it waits for the reply to `noidle` -/
 def startCancel (s : St) : St :=
   match s.queue with
-  | [] => exitLoop s                     -- `commands.recv()` returned None
+  | [] => exitLoop s                     -- `commands.recv()` returned None: all handles dropped
   | r :: q =>
     let s := { s with queue := q }
     match write s NOIDLE with
-    | (s, none) => { s with pc := .cancelWait r .initial }
+    | (s, none) => { s with pc := .cancelWait r .initial, fresh := true }
     | (s, some k) => exitLoop (emit s (.resolved r.id (.protocol (.io k))))
 
-/-- one internal step of the task, if any is enabled. `recvFirst` is consulted only when both
-`select!` branches could be polled ready. Returns `none` when the task is suspended. -/
+/-- `handle_idle_response` for a complete response -/
+def idleResponse (s : St) (r : Response) : St :=
+  match intoSingleFrame r with
+  | some (.ok f) =>
+    let s := emitEvents s f
+    match write s IDLE with
+    | (s, none) => { s with pc := .idling .initial, fresh := true }
+    | (s, some k) => exitLoop (emit s (.closing (some (.io k))))
+  | some (.error _) => exitLoop (emit s (.closing none))
+  | none => exitLoop s
+
+/-- `do_connect` returns an error: nothing was spawned, the transport is dropped with the connection -/
+def failConnect (s : St) (o : ConnectOutcome) : St :=
+  emit (emit { s with pc := .failed } (.connected o)) .transportDropped
+
+/-- one step of the task, `none` when it is suspended. `recvFirst` is consulted only in the
+`select!` of the idling state. -/
 def step (s : St) (recvFirst : Bool) : Option St :=
   match s.pc with
   | .connecting =>
-    -- `AsyncConnection::connect`: one read, then `greeting`
     if s.avail.isEmpty then
       match s.rerr with
-      | some k => some (emit { s with pc := .failed } (.connected (.protocol (.io k))))
+      | some k => some (failConnect s (.protocol (.io k)))
       | none =>
-        if s.eof then some (emit { s with pc := .failed } (.connected (.protocol .unexpectedEof))) else none
+        if s.eof then some (failConnect s (.protocol .unexpectedEof)) else none
     else
       let data := s.buf ++ s.avail
       match greeting data with
       | .ok v _ =>
         -- whatever followed the greeting in this read is discarded (`recv_buf.clear()`)
-        let s := { s with buf := [], avail := [] }
+        let s := { s with buf := [], avail := [], version := v }
         match s.password with
         | none => some (emit { s with pc := .spawned } (.connected (.ok v)))
         | some pw =>
           match write s pw with
-          | (s, none) => some { s with pc := .pwWait .initial, obs := s.obs ++ [.connected (.ok v)] |>.dropLast }
-          | (s, some k) => some (emit { s with pc := .failed } (.connected (.protocol (.io k))))
+          | (s, none) => some { s with pc := .pwWait .initial, fresh := true }
+          | (s, some k) => some (failConnect s (.protocol (.io k)))
       | .incomplete => some { s with buf := data, avail := [] }
-      | _ => some (emit { s with pc := .failed, buf := data, avail := [] } (.connected (.protocol .invalid)))
+      | _ => some (failConnect s (.protocol .invalid))
   | .pwWait σ =>
-    match pollRecv s σ with
-    | (s, .pending σ') => if σ' == σ && s.avail.isEmpty then none else some { s with pc := .pwWait σ' }
+    if !recvPollable s then none else
+    match pollRecv { s with fresh := false } σ with
+    | (s, .pending σ') => some { s with pc := .pwWait σ' }
     | (s, .ready it) =>
       match it with
       | .resp r =>
-        if r.error.isSome then some (emit { s with pc := .failed } (.connected .incorrectPassword))
-        else some (emit { s with pc := .spawned } (.connected (.ok [])))
-      | .clean => some (emit { s with pc := .failed } (.connected (.protocol .unexpectedEof)))
-      | it => some (emit { s with pc := .failed } (.connected (.protocol (itemErr it))))
+        if r.error.isSome then some (failConnect s .incorrectPassword)
+        else some (emit { s with pc := .spawned } (.connected (.ok s.version)))
+      | .clean => some (failConnect s (.protocol .unexpectedEof))
+      | it => some (failConnect s (.protocol (itemErr it)))
   | .spawned =>
-    -- `run_loop`: initial idle
     match write s IDLE with
-    | (s, none) => some { s with pc := .idling .initial }
+    | (s, none) => some { s with pc := .idling .initial, fresh := true }
     | (s, some k) => some (exitLoop (emit s (.closing (some (.io k)))))
   | .idling σ =>
-    let recvReady := !s.avail.isEmpty || s.eof || s.rerr.isSome
     let cmdReady := !s.queue.isEmpty || s.senders = 0
-    if cmdReady && !(recvReady && recvFirst) then
-      -- command branch wins; the receive future (and its builder σ) is dropped
-      some (startCancel s)
-    else if recvReady then
-      match pollRecv s σ with
+    if cmdReady && !(recvFirst && recvPollable s) then
+      -- the command branch is polled ready; the receive future is dropped as it is
+      some (startCancel (dropFuture s σ))
+    else if recvPollable s then
+      match pollRecv { s with fresh := false } σ with
       | (s, .pending σ') =>
-        -- bytes consumed, response incomplete
-        if cmdReady then some (startCancel s)    -- the other branch is ready: future dropped with σ'
+        if cmdReady then some (startCancel (dropFuture s σ'))   -- dropped right after consuming bytes
         else some { s with pc := .idling σ' }
       | (s, .ready it) =>
         match it with
-        | .resp r =>
-          match intoSingleFrame r with
-          | some (.ok f) =>
-            let s := emitEvents s f
-            match write s IDLE with
-            | (s, none) => some { s with pc := .idling .initial }
-            | (s, some k) => some (exitLoop (emit s (.closing (some (.io k)))))
-          | some (.error _) => some (exitLoop (emit s (.closing none)))
-          | none => some (exitLoop s)
+        | .resp r => some (idleResponse s r)
         | .clean => some (exitLoop s)
         | it => some (exitLoop (emit s (.closing (some (itemErr it)))))
     else none
   | .cancelWait r σ =>
-    let recvReady := !s.avail.isEmpty || s.eof || s.rerr.isSome || σ == .initial && !s.buf.isEmpty
-    if !recvReady then none else
-    match pollRecv s σ with
-    | (s, .pending σ') => if σ' == σ && s.buf == (s.buf) && false then none else
-        (if σ' == σ then (if recvReady && (s.eof || s.rerr.isSome) then none else none) else none) |>.orElse fun _ =>
-        some { s with pc := .cancelWait r σ' }
+    if !recvPollable s then none else
+    match pollRecv { s with fresh := false } σ with
+    | (s, .pending σ') => some { s with pc := .cancelWait r σ' }
     | (s, .ready it) =>
       match it with
       | .resp resp =>
@@ -261,16 +278,15 @@ def step (s : St) (recvFirst : Bool) : Option St :=
         | some (.ok f) =>
           let s := emitEvents s f
           match write s r.bytes with
-          | (s, none) => some { s with pc := .waiting r .initial }
+          | (s, none) => some { s with pc := .waiting r .initial, fresh := true }
           | (s, some k) => some (exitLoop (emit s (.resolved r.id (.protocol (.io k)))))
         | some (.error _) => some (exitLoop (emit (emit s (.closing none)) (.resolved r.id .closed)))
         | none => some (exitLoop (emit s (.resolved r.id .closed)))
       | .clean => some (exitLoop (emit s (.resolved r.id .closed)))
       | it => some (exitLoop (emit s (.resolved r.id (.protocol (itemErr it)))))
   | .waiting r σ =>
-    let recvReady := !s.avail.isEmpty || s.eof || s.rerr.isSome || σ == .initial && !s.buf.isEmpty
-    if !recvReady then none else
-    match pollRecv s σ with
+    if !recvPollable s then none else
+    match pollRecv { s with fresh := false } σ with
     | (s, .pending σ') => some { s with pc := .waiting r σ' }
     | (s, .ready it) =>
       match it with
@@ -281,5 +297,33 @@ def step (s : St) (recvFirst : Bool) : Option St :=
     if !s.queue.isEmpty || s.senders = 0 || s.now ≥ d then some (afterReply s d) else none
   | .exited => none
   | .failed => none
+
+/-- is the poll order of the `select!` observable in this state? (both branches could be ready) -/
+def ambiguous (s : St) : Bool :=
+  match s.pc with
+  | .idling _ => (!s.queue.isEmpty || s.senders = 0) && recvPollable s
+  | _ => false
+
+/-- the scheduler's choices: one Boolean per ambiguous poll (`true` = receive polled first);
+`used` counts how many were consulted -/
+structure Sched where
+  choices : List Bool := []
+  used : Nat := 0
+deriving Repr
+
+def Sched.next (c : Sched) : Bool × Sched :=
+  match c.choices with
+  | [] => (false, { c with used := c.used + 1 })
+  | b :: bs => (b, { choices := bs, used := c.used + 1 })
+
+/-- run the task until it is suspended (`fuel` bounds the number of steps; each step consumes
+input, a queue entry or a timer, so a generous bound is never reached) -/
+def runSteps : Nat → St → Sched → St × Sched
+  | 0, s, c => (s, c)
+  | fuel + 1, s, c =>
+    let (rf, c') := if ambiguous s then c.next else (false, c)
+    match step s rf with
+    | none => (s, c)
+    | some s' => runSteps fuel s' c'
 
 end Mpd.Loop
